@@ -108,8 +108,12 @@ impl<Key, Value> CommandExecutor<Key, Value>
         let store_clone = store.clone();
         let delete_hook = move |key| { store_clone.delete(&key); };
 
+        #[cfg(cached_verif)] let verif_sink = crate::cache::verif::current();
         thread::spawn(move || {
+            #[cfg(cached_verif)] let _verif_guard = crate::cache::verif::adopt(verif_sink, "worker");
+            #[cfg(cached_verif)] crate::cache::verif::point("W_Recv", 0);
             while let Ok(pair) = receiver.recv() {
+                #[cfg(cached_verif)] crate::cache::verif::event("recv", &[&[pair.acknowledgement.handle().verif_id()][..], &pair.command.verif_fields()[..]].concat());
                 let command = pair.command;
                 let status = match command {
                     CommandType::Put(key_description, value) =>
@@ -148,14 +152,17 @@ impl<Key, Value> CommandExecutor<Key, Value>
                     CommandType::Shutdown => {
                         info!("Received Shutdown command");
                         pair.acknowledgement.done(CommandStatus::Accepted);
+                        #[cfg(cached_verif)] crate::cache::verif::point("W_Drain", 0);
                         for command_acknowledgement_pair in receiver.iter() {
                             command_acknowledgement_pair.acknowledgement.done(CommandStatus::ShuttingDown);
+                            #[cfg(cached_verif)] crate::cache::verif::point("W_Drain", 0);
                         }
                         drop(receiver);
                         break;
                     }
                 };
                 pair.acknowledgement.done(status);
+                #[cfg(cached_verif)] crate::cache::verif::point("W_Recv", 0);
             }
         });
     }
@@ -166,11 +173,14 @@ impl<Key, Value> CommandExecutor<Key, Value>
     /// 2) It allows `CommandExecutor` to change the status of the command inside `CommandAcknowledgement`. This would then finish the `await` at the client's end.
     pub(crate) fn send(&self, command: CommandType<Key, Value>) -> CommandSendResult {
         let acknowledgement = CommandAcknowledgement::new();
+        #[cfg(cached_verif)] let verif_fields = [&[acknowledgement.handle().verif_id()][..], &command.verif_fields()[..]].concat();
+        #[cfg(cached_verif)] crate::cache::verif::point("C_Send", verif_fields[1]);
         let send_result = self.sender.send(CommandAcknowledgementPair {
             command,
             acknowledgement: acknowledgement.clone(),
         });
 
+        #[cfg(cached_verif)] crate::cache::verif::event("send", &[&verif_fields[..], &[send_result.is_ok() as i64][..]].concat());
         match send_result {
             Ok(_) => Ok(acknowledgement),
             Err(err) => {
@@ -186,6 +196,7 @@ impl<Key, Value> CommandExecutor<Key, Value>
     }
 
     fn put<DeleteHook>(put_parameters: PutParameter<Key, Value, DeleteHook>) -> CommandStatus where DeleteHook: Fn(Key) {
+        #[cfg(cached_verif)] crate::cache::verif::point("W_PutCheck", put_parameters.key_description.id as i64);
         if put_parameters.store.is_present(put_parameters.key_description.key()) {
             return CommandStatus::Rejected(KeyAlreadyExists);
         }
@@ -194,6 +205,7 @@ impl<Key, Value> CommandExecutor<Key, Value>
             put_parameters.delete_hook,
         );
         if let CommandStatus::Accepted = status {
+            #[cfg(cached_verif)] crate::cache::verif::point("W_StorePut", put_parameters.key_description.id as i64);
             put_parameters.store.put(
                 put_parameters.key_description.clone_key(),
                 put_parameters.value,
@@ -206,6 +218,7 @@ impl<Key, Value> CommandExecutor<Key, Value>
     }
 
     fn put_with_ttl<DeleteHook>(put_with_ttl_parameter: PutWithTTLParameter<Key, Value, DeleteHook>) -> CommandStatus where DeleteHook: Fn(Key) {
+        #[cfg(cached_verif)] crate::cache::verif::point("W_PutCheck", put_with_ttl_parameter.put_parameter.key_description.id as i64);
         if put_with_ttl_parameter.put_parameter.store.is_present(put_with_ttl_parameter.put_parameter.key_description.key()) {
             return CommandStatus::Rejected(KeyAlreadyExists);
         }
@@ -214,6 +227,7 @@ impl<Key, Value> CommandExecutor<Key, Value>
             put_with_ttl_parameter.put_parameter.delete_hook,
         );
         if let CommandStatus::Accepted = status {
+            #[cfg(cached_verif)] crate::cache::verif::point("W_StorePut", put_with_ttl_parameter.put_parameter.key_description.id as i64);
             let expiry = put_with_ttl_parameter.put_parameter.store.put_with_ttl(
                 put_with_ttl_parameter.put_parameter.key_description.clone_key(),
                 put_with_ttl_parameter.put_parameter.value,
@@ -231,6 +245,7 @@ impl<Key, Value> CommandExecutor<Key, Value>
     }
 
     fn delete(delete_parameter: DeleteParameter<Key, Value>) -> CommandStatus {
+        #[cfg(cached_verif)] crate::cache::verif::point("W_DelStore", 0);
         let may_be_key_id_expiry = delete_parameter.store.delete(delete_parameter.key);
         if let Some(key_id_expiry) = may_be_key_id_expiry {
             delete_parameter.admission_policy.delete(&key_id_expiry.0);
@@ -241,6 +256,13 @@ impl<Key, Value> CommandExecutor<Key, Value>
         }
         CommandStatus::Rejected(KeyDoesNotExist)
     }
+}
+
+#[cfg(cached_verif)]
+impl<Key, Value> CommandExecutor<Key, Value>
+    where Key: Hash + Eq + Send + Sync + Clone + 'static,
+          Value: Send + Sync + 'static {
+    pub(crate) fn verif_queue_len(&self) -> usize { self.sender.len() }
 }
 
 #[cfg(test)]
